@@ -71,7 +71,8 @@ m={
  "engines":[
    {"name":"vsched-fork","path":"/verif/harness/src/reg.rs","serves_properties":["C01","C02","C03","C04","C09","C10","C11","C18"],"kind_free_text":"the same executor, one forked child per case; deliveries are direct calls of the library's real dispatcher placed by the schedule (own thread or nested on the interrupted thread); real sigaction dispositions"},
    {"name":"forkprobe","path":"/verif/harness/src/forkrun.rs","serves_properties":["C05","C12","C13","C14","C15","C16","C17"],"kind_free_text":"sequential generated histories interpreted against the real API in a forked child (real signals), observations streamed over a pipe, compared with a reference model or the kernel; how the child ended is an observation"},
-   {"name":"vsched-inproc","path":"/verif/harness/src/vsched.rs","serves_properties":["C06","C07","C08"],"kind_free_text":"schedule-owning executor: token-passing OS threads, byte-encoded schedules, C11-subset memory model with vector clocks, nested operations; proptest generators and shrinking"},
+   {"name":"libfuzzer","path":"/verif/harness/fuzz","serves_properties":["C01","C06","C07","C08","C17","C18"],"kind_free_text":"cargo-fuzz / libFuzzer targets (chan_sched, probe_sched, siginfo_extract) decoding bytes into the same case types and running the same oracles; used by the thorough tiers (tools/fuzz_campaign.sh)"},
+   {"name":"vsched-inproc","path":"/verif/harness/src/vsched.rs","serves_properties":["C06","C07","C08","C01","C18"],"kind_free_text":"schedule-owning executor: token-passing OS threads, byte-encoded schedules, C11-subset memory model with vector clocks, nested operations; proptest generators and shrinking"},
  ],
  "checks":checks,
  "not_applicable":na,
